@@ -703,7 +703,7 @@ def theorem_files(tr):
     return files, meta
 
 
-def case_defs(c, r, pre):
+def case_defs(c, r, pre, avail=None):
     """Coq definitions for one case (prefix pre) + list of (label, boolean term)"""
     defs = []
     checks = []
@@ -820,6 +820,13 @@ def case_defs(c, r, pre):
     if ok('cf') and ok('cf_coeffs'):
         for k in range(len(pts)):
             checks.append(('cf', k, 'chk_cf %s %s %sx%d %s %s' % (B, A, pre, k, plist([cf[k] for cf in M['cf_coeffs']['coeffs']]), qi(M['cf']['vals'][k]))))
+    if avail is not None:
+        def usable(term):
+            for nm in re.findall(r'\b(att_\w+|dslot_\w+|dupd|qrf_oguard)\b', term):
+                if nm not in avail:
+                    return False
+            return True
+        checks = [ch for ch in checks if usable(ch[2])]
     return defs, checks
 
 
@@ -949,6 +956,7 @@ def run(tier='quick', replay=None):
             cases = gen_cases(rng, tier)
         results = core.run_impl('impl_ratfun.py', [{k: v for k, v in c.items() if k not in ('factors', 'tags', 'delay')} for c in cases], timeout=3000)
         res.programs = len(ALL_METHODS)
+        avail = set(re.findall(r'Definition (\w+)', texts.get('RatfunAttach.v', '')))
         counter = {}
         oracle_bad = set()
         idmap = []
@@ -991,7 +999,7 @@ def run(tier='quick', replay=None):
             # Coq cases
             if attach_ok:
                 try:
-                    defs, checks = case_defs(c, r, 'c%d_' % ci)
+                    defs, checks = case_defs(c, r, 'c%d_' % ci, avail)
                 except Exception as e:
                     res.count('casegen_error')
                     continue
@@ -1055,7 +1063,12 @@ def run(tier='quick', replay=None):
             violations.append({'key': 'correspondence:' + dct['method'], 'what': 'hand model and real %s differ on %s' % (public(dct['method']), dct['expr']),
                                'case': cases[dct['case_index']], 'method': dct['method'], 'point': dct['point'], 'found_input': False,
                                'correspondence': 'LT.RatfunFmt model of %s vs lcapy' % public(dct['method'])})
-        return core.finish(res, violations)
+        uniq, seenk = [], set()
+        for v in violations:
+            if v['key'] not in seenk:
+                seenk.add(v['key'])
+                uniq.append(v)
+        return core.finish(res, uniq)
     finally:
         if not os.environ.get('VERIF_KEEP'):
             w.cleanup()
